@@ -100,7 +100,7 @@ type Result struct {
 }
 
 func parseRec(ctx context.Context, wg *errgroup.Group, resCh chan<- directives.File, file string, ancestors ...string) (directives.File, error) {
-	verif.Emit("FileStart", "path", file)
+	verif.Emit("FileStart", "path", file, "parent", append([]string{""}, ancestors...)[len(ancestors)])
 	text, err := os.ReadFile(file)
 	if err != nil {
 		return directives.File{}, err
